@@ -35,6 +35,9 @@ type Conn struct {
 	writes   []*Write
 	nWrites  int
 	FailSend map[int]error // 1-based WriteTo index -> error to return
+	// BlockSend[i]: the i-th WriteTo call does not return before the channel is closed (a socket
+	// write stuck in the kernel).
+	BlockSend map[int]chan struct{}
 	// ShortWrite[i] makes the i-th write report n-1 bytes.
 	ShortWrite map[int]bool
 	OnWrite    func(w *Write)
@@ -75,9 +78,13 @@ func (c *Conn) WriteTo(p []byte, addr net.Addr) (int, error) {
 		w.Err = err
 	}
 	short := c.ShortWrite[c.nWrites]
+	block := c.BlockSend[c.nWrites]
 	c.writes = append(c.writes, w)
 	cb := c.OnWrite
 	c.mu.Unlock()
+	if block != nil {
+		<-block
+	}
 	if cb != nil {
 		cb(w)
 	}
